@@ -9,6 +9,7 @@ import time
 from typing import Any, Dict, List, Optional, Tuple
 
 from harness.extract import c01_handlers as x_h
+from harness.extract import c01_regs as x_regs
 from harness.extract import episode as x_ep
 from harness.extract import request_schema as x_schema
 from harness.lib import scen
@@ -42,7 +43,23 @@ MANIFEST = {
             "single history append, the fields and the single construction site of AgentHistoryItem and the Literal of "
             "RequestResponse.status are regenerated from source (Gen/Episode.lean, obligations C01_gen_pipeline, C01_gen_history_item); the inventory of leaf request handlers is regenerated "
             "too and every handler returns a RequestResponse by construction on every path, four listed forwarding handlers excepted "
-            "(Gen/EpisodeHandlers.lean against C05x's Gen/RequestSchema.lean, obligation C01_gen_handlers_return_responses).",
+            "(Gen/EpisodeHandlers.lean against C05x's Gen/RequestSchema.lean, obligation C01_gen_handlers_return_responses). "
+            "TOTALITY PROVED for one handler body: SoftwareManager.uninstall (behind node-application-remove and every replacing install) is "
+            "translated statement by statement (Gen/EpisodeRegs.lean) into a statement language whose interpreter raises wherever the "
+            "Python statement can (d[k], d.pop(k), remove_request); on every node reachable in C13's registries model by any operation "
+            "sequence the translated body returns for every name and equals C13's Node.uninstall (C01_uninstall_total, "
+            "C01_uninstall_refines; SoftwareManager.install is translated too, its only raising statement is the eviction through uninstall, so it returns "
+            "for every class and configuration on every reachable node given that constructors and lifecycle calls return (C01_install_total, "
+            "C01_gen_install_body); C01_tidied_uninstall_raises shows the direct-pop variant raising on two applications that share a "
+            "(port, protocol) key). Rig family (e) CO-LOCATED PAIRS: for every action type that names a node and a target inside it, every "
+            "ordered pair of distinct targets of one node / folder / access list (applications incl. every installable one, installed at run "
+            "time by a preceding step; services; files; folders; NICs; users; ACL positions) - all same-type pairs of the types that change "
+            "the inventory, a seeded sample of the other same-type and of the cross-type pairs in quick, all of them plus triples in thorough "
+            "- packed into episodes of the real environment; a failing episode is shrunk to a minimal sequence and action map. Families (f) one "
+            "well-formed instance of EVERY action type on the first node of every kind, run with the save_agent_actions / save_step_metadata / "
+            "save_agent_logs options ON (scratch directory) with a reset after every episode and a final close, and (g) the same instances with "
+            "each optional field omitted; in (e)-(g) the extra oracle 'a handler never mutates the request it was given' (the stored request "
+            "equals the re-formed one, types included).",
     "note": "C01-specific: Python exceptions inside handlers/observations/rewards and float overflow are outside the model; totality is "
             "validated by execution only (one or two blue disturbances per episode, one reset seed per scenario and run). Scenario families: "
             "shipped scenarios x generated action maps and members of the generated topology families (switched LAN, routed, firewall+DMZ) "
@@ -53,7 +70,7 @@ MANIFEST = {
                  "with disturbed long episodes sharded over worker processes; standalone agent-totality sweep with search",
     "design_ref": "5/C01",
 }
-MODULES = ["PrimaiteModel.Props.C01", "PrimaiteModel.Props.C01Handlers"]
+MODULES = ["PrimaiteModel.Props.C01", "PrimaiteModel.Props.C01Handlers", "PrimaiteModel.Props.C01Regs"]
 EXE = "drv_c01"
 QUICK = ["data_manipulation", "basic_firewall", "test_primaite_session", "wireless_wan_network_config", "uc7_config"]
 QUICK_DISTURB = ["uc7_config", "uc7_config_tap003", "data_manipulation"]
@@ -62,6 +79,8 @@ GRID = ["uc7_config", "uc7_config_tap003", "data_manipulation"]           # thor
 # plug-in node type.  Scenarios with two proxy agents are driven through the MARL driver instead.
 SKIP = {"bad_primaite_session", "no_nodes_links_agents_network", "eval_only_primaite_session", "extended_config"}
 MARL = ["multi_agent_session", "data_manipulation_marl"]
+PAIRS_QUICK = ["data_manipulation"]
+PAIRS_THOROUGH = ["data_manipulation", "basic_firewall", "uc7_config", "multi_lan_internet_network_example"]
 CHUNK = 5            # disturbed episodes per unit (one environment, one reset per episode)
 
 _SEGS: List[tuple] = []      # (first line, end line, unit, variant, max_len, marl, scenario_dir, ops) of every play merged so far
@@ -449,7 +468,108 @@ def _do_settings(rec: dict, unit: dict):
     rec["cases"].append((f"{label}|{len(ops)}", True))
 
 
-KINDS = {"settings": _do_settings, "game": _do_game, "corpus": _do_corpus, "rewards": _do_rewards, "case": _do_case, "sched": _do_sched, "marl": _do_marl, "probe": _do_probe, "disturb": _do_disturb, "agents": _do_agents}
+def _do_pairs(rec: dict, unit: dict):
+    envrig.CHECK_REQUESTS = True
+    try:
+        _do_pairs_inner(rec, unit)
+    finally:
+        envrig.CHECK_REQUESTS = False
+
+
+def _do_pairs_inner(rec: dict, unit: dict):
+    """Ordered pairs / triples of actions on co-located targets, every action type, optional fields omitted (harness/rigs/c01_pairs.py)."""
+    from harness.rigs import c01_pairs as cp
+    cfg, notes = _resolve_cfg(unit)
+    rec["notes"] += [n for n in notes if n != "scenario-given-a-minimal-proxy-agent"]
+    if cfg is None:
+        return
+    rng: Rng = unit["rng"]
+    plan = cp.Plan(cfg)
+    if unit.get("io_on"):       # the save_* options that write per-episode files, ON (files go to a scratch directory)
+        import tempfile
+        from pathlib import Path
+        import primaite.session.io as pio
+        pio.PRIMAITE_PATHS.user_sessions_path = Path(tempfile.mkdtemp(prefix="c01_io_"))
+        cfg = copy.deepcopy(cfg)
+        cfg.setdefault("io_settings", {}).update({"save_agent_actions": True, "save_step_metadata": True, "save_agent_logs": True})
+        plan = cp.Plan(cfg)
+    if unit["group"] in ("every", "optional"):
+        plan.build_variants(unit["group"])
+    else:
+        plan.build(unit["group"], rng, unit["thorough"], unit["cross_cap"], unit["triple_cap"], unit["dedupe"], unit.get("same_cap", 10 ** 9))
+    for k, v in plan.stats.items():
+        _count(rec, f"pairs:{unit['label']}:{k}", v)
+    if not plan.segments:
+        return
+    pcfg = plan.cfg()
+    max_steps = unit["max_steps"]
+    max_len = max_steps + 8
+    pcfg.setdefault("game", {})["max_episode_length"] = max_len
+    eps = plan.episodes(max_steps)
+    if unit.get("episode_cap") and len(eps) > unit["episode_cap"]:
+        _count(rec, f"pairs:{unit['label']}:episodes NOT run (cap)", len(eps) - unit["episode_cap"])
+        eps = rng.fork("cap").shuffle(eps)[:unit["episode_cap"]]
+    env = None
+    history: List[Any] = []
+    failed = 0
+    seen_sigs: set = set()
+    for k, segs in enumerate(eps):
+        if failed >= 3 * max(1, len(seen_sigs)) or failed >= 24:      # enough witnesses: the rest of the plan is not run (the check is red anyway)
+            _count(rec, f"pairs:{unit['label']}:episodes NOT run after repeated failures", len(eps) - k)
+            break
+        if env is None:
+            try:
+                env = envrig.make_driver(pcfg)
+                history = []
+            except Exception as e:
+                rec["viol"].append({"sig": {"kind": "env-construction-raises", "exc": type(e).__name__}, "what": f"{unit['label']}: constructor raises {e}",
+                                    "replay": {"kind": "env", "scenario": unit["label"], "cfg_yaml": _dump(pcfg), "ops": [], "marl": False, "max_len": max_len},
+                                    "agent_file": None, "kind": "env-construction-raises"})
+                return
+        ops: List[Any] = [["reset", rng.fork(f"seed{k}").below(2 ** 31), None]]
+        for sg in segs:
+            ops += sg["ops"]
+        ops += [0] * (5 if unit["group"] in ("every", "optional") else 1)     # idle steps: effects that ripen a few ticks later (countdowns)
+        if unit.get("io_on"):       # an episode's files are written by the NEXT reset (and by close()): keep every episode self-contained
+            ops += [["reset", 1, None]] + ([0, ["close"]] if k == len(eps) - 1 else [])
+        p = envrig.play(env, ops, max_len, announce=not history)
+        history += ops
+        desc = " | ".join(f"{sg['node']}:" + ">".join(f"{i}({t})" for i, t in sg["steps"]) for sg in segs[:3])
+        sigs_now = {json.dumps(_sig(f), sort_keys=True) for f in p.fails}
+        if p.fails and sigs_now <= seen_sigs:
+            # the same defect class again (e.g. an open finding met on another node): counted, not minimised and reported a second time
+            _count(rec, "pairs:episodes-that-failed-again-with-an-already-reported-signature")
+            failed += 1
+        elif p.fails:
+            seen_sigs |= sigs_now
+            kinds = {f["kind"] for f in p.fails}
+            q = envrig.run_ops(pcfg, ops, max_len)
+            if {f["kind"] for f in q.fails} & kinds:
+                mcfg, mops = cp.minimise(pcfg, ops, max_len, {f["kind"] for f in q.fails} & kinds)
+                p2 = envrig.run_ops(mcfg, mops, max_len)
+                amap = envrig.proxy_agent_cfg(mcfg)["action_space"]["action_map"]
+                seq = " ; ".join(f"{amap[a]['action']} {amap[a]['options']}" for a in mops if isinstance(a, int) and a in amap)
+                _absorb(rec, p2, unit["label"], f"co-located-pairs:{unit['group']}", mcfg, max_len, extra_what=f"(minimal sequence: {seq[:600]})")
+            else:
+                _absorb(rec, p, unit["label"], f"co-located-pairs:{unit['group']}[{desc[:200]}]", pcfg, max_len, ops_override=list(history),
+                        extra_what="(needs the earlier episodes of the same environment)")
+            _count(rec, "pairs:episodes-that-failed")
+            failed += 1
+        else:
+            _absorb(rec, p, unit["label"], f"co-located-pairs:{unit['group']}", pcfg, max_len)
+        _count(rec, "case:pairs:" + unit["group"])
+        for sg in segs:
+            _count(rec, f"pairs:segments-run:{sg['kind']}:{sg['family']}")
+            for i, _t in sg["steps"]:
+                _count(rec, "pairs:action:" + i)
+            rec["cases"].append((f"{unit['label']}|pairs|{sg['node']}|{sg['scope']}|{sg['steps']}", True))
+        if p.raised:
+            env = None
+    rec["samples"].append({"scenario": unit["label"], "variant": "co-located-pairs:" + unit["group"],
+                           "first_episode": [f"{sg['node']}:{sg['steps']}" for sg in eps[0][:4]], "episodes": len(eps), "action_map": len(plan.amap)})
+
+
+KINDS = {"pairs": _do_pairs, "settings": _do_settings, "game": _do_game, "corpus": _do_corpus, "rewards": _do_rewards, "case": _do_case, "sched": _do_sched, "marl": _do_marl, "probe": _do_probe, "disturb": _do_disturb, "agents": _do_agents}
 
 
 def _exec_unit(unit: dict) -> dict:
@@ -534,6 +654,23 @@ def _phase1(ctx: Ctx, rng: Rng) -> List[dict]:
         if name in shipped:
             units.append({"kind": "rewards", "label": name, "scenario": name, "rng": rng.fork("rew" + name), "n": ctx.scale(6, 30),
                           "episodes": 2, "steps": ctx.scale(12, 30), "weight": 6})
+    # ordered pairs / triples of actions of one target family on co-located targets (harness/rigs/c01_pairs.py)
+    from harness.rigs import c01_pairs as cp
+    r_pairs = rng.fork("pairs")
+    pair_scenarios = [n for n in (PAIRS_THOROUGH if ctx.thorough else PAIRS_QUICK) if n in shipped]
+    for name in pair_scenarios:
+        big = name.startswith("uc7")
+        for group in cp.GROUPS:
+            units.append({"kind": "pairs", "label": name, "scenario": name, "group": group, "rng": r_pairs.fork(name + group),
+                          "thorough": ctx.thorough and not big, "dedupe": True, "same_cap": ctx.scale(12, 10 ** 9),
+                          "cross_cap": ctx.scale(12, 40 if big else 400), "triple_cap": ctx.scale(0, 20 if big else 150), "max_steps": 40,
+                          "episode_cap": (6 if big else None) if ctx.thorough else None,
+                          "weight": {"application": 25, "service": 12}.get(group, 5) * (3 if ctx.thorough else 1)})
+        for group, io_on in (("every", True), ("optional", False)):
+            if big:
+                continue
+            units.append({"kind": "pairs", "label": name, "scenario": name, "group": group, "io_on": io_on, "rng": r_pairs.fork(name + group),
+                          "thorough": False, "dedupe": True, "cross_cap": 0, "triple_cap": 0, "max_steps": 40, "weight": 6})
     from harness.rigs import c01_settings as cs
     r_set = rng.fork("settings")
     for atype in ("periodic-agent", "red-database-corrupting-agent", "probabilistic-agent", "random-agent"):
@@ -670,7 +807,11 @@ def replay(rec: dict) -> bool:
     ops = rp.get("ops")
     if ops is None:      # records written by the first version of the check: "reset" entries without a seed
         ops = [["reset", rp.get("seed"), None] if a == "reset" else a for a in rp.get("log", [])]
-    p = envrig.run_ops(_cfg_of(rp), ops, rp.get("max_len"), marl=rp.get("marl") or False)
+    envrig.CHECK_REQUESTS = (rp.get("failure") or {}).get("kind") == "handler-mutated-its-request"
+    try:
+        p = envrig.run_ops(_cfg_of(rp), ops, rp.get("max_len"), marl=rp.get("marl") or False)
+    finally:
+        envrig.CHECK_REQUESTS = False
     if p.fails:
         return False
     exe = LEAN / ".lake" / "build" / "bin" / EXE
@@ -777,6 +918,7 @@ def run(ctx: Ctx):
     with lean_lock():
         ctx.extract("Episode", x_ep.emit)
         ctx.extract("EpisodeHandlers", x_h.emit)
+        ctx.extract("EpisodeRegs", x_regs.emit)          # SoftwareManager.uninstall, statement by statement
         ctx.extract("RequestSchema", x_schema.emit)      # C05x's extractor, run here so that the tie is against the CURRENT source
         ctx.prove(MODULES, exes=[EXE], leanchecker=ctx.thorough)
     ctx.cov["rule"] = ("cases = (a) shipped scenario x {shipped action map, generated action maps over every registered action type with existing, "
